@@ -16,7 +16,7 @@ int main(int argc, char** argv)
         vrt::alias("cow", "m1", "cw");
         vrt::g_cell = vrt::CellStats();
         vrt::g_cell.loudLife = false;
-        Cow* cow = x.make<Cow>("cow", 0L);  // the initial version is Cell instance 1
+        Cow* cow = x.make<Cow>("cow", Cell(0L, Cell::Temp{}));  // the initial version is Cell instance 1
         vrt::g_cell.loudLife = true;        // from now on construction / destruction of versions are steps
         vrt::g_cell.quietCtor = true;
         static const std::vector<const char*> names{"write_commit", "write_cancel", "write_move_commit", "snap_read", "snap_hold", "try_snap"};
